@@ -169,7 +169,12 @@ def _check(case, acc, workdir):
             same = r1.decode(a) == r2.decode(b)
             what = 'text of record %d' % (i + 1)
         else:
-            d1 = iso_ref.decode(r1, cfg, a, False)
+            try:
+                d1 = iso_ref.decode(r1, cfg, a, False)
+            except iso_ref.RefError as ex:
+                acc.viol('c19.input_unreadable', case, str(ex), 'writer-produced input record %d decodable under %s'
+                         % (i + 1, a), 'the file written by IpmWriter is not a well-formed IPM file')
+                return
             try:
                 d2 = iso_ref.decode(r2, cfg, b, False)
             except iso_ref.RefError as ex:
